@@ -2,7 +2,11 @@
 
 package command
 
-import "os/exec"
+import (
+	"io"
+	"os/exec"
+	"sync"
+)
 
 // VerifFactory is installed by the verification harness; nil means "real OS".
 // When it returns a non-nil value for a wrapper, every OS-facing call of that
@@ -15,4 +19,26 @@ func verifFake(c *CmdWrapper) VerifFakeCmd {
 		return nil
 	}
 	return VerifFactory(c, c.cmd)
+}
+
+// A pty command is started by the first of Start / StdoutPipe / StdinPipe and
+// only once (CmdWrapperPty keeps the pty master for that; the fake has none).
+var verifPtyStarted sync.Map
+
+func verifPtyStart(c *CmdWrapperPty, f VerifFakeCmd) error {
+	if _, started := verifPtyStarted.LoadOrStore(c, true); started {
+		return nil
+	}
+	return f.Start()
+}
+
+func verifPtyStdout(c *CmdWrapperPty, f VerifFakeCmd) (io.ReadCloser, error) {
+	out, err := f.StdoutPipe()
+	if err != nil {
+		return nil, err
+	}
+	if err := verifPtyStart(c, f); err != nil {
+		return nil, err
+	}
+	return out, nil
 }
